@@ -4,7 +4,7 @@ E1: every token sequence up to a length over a flag-token alphabet, for the
 --cflags and the --libs answer, x separators x exit statuses x undecodable /
 backslash / non-ASCII answers x package lists of length 1..3.  The answers are
 given in-process through a `subprocess` stand-in placed in the namespace of
-cffi.pkgconfig; a deterministic subset (~300 cases) is replayed through a real
+cffi.pkgconfig; a deterministic subset (~250 cases quick, ~700 thorough) is replayed through a real
 stub `pkg-config` script that is first on PATH, and the two routes must agree.
 Oracle: a reference translation written from the statement.
 """
@@ -27,7 +27,7 @@ META = dict(
          "spawn error, backslash, warnings on stderr) at every call position; all package lists of length 1..3 over "
          "a 38-package universe; merge_flags on all pairs/triples of small dicts.  The returned dict must be a "
          "translation the statement permits and PkgConfigError must be raised exactly on failing/undecodable runs.",
-    note="the in-process stand-in for subprocess is validated against a real stub pkg-config executable on ~300 cases; "
+    note="the in-process stand-in for subprocess is validated against a real stub pkg-config executable on ~250 (quick) / ~700 (thorough) cases; "
          "filesystem encoding is UTF-8")
 
 TOKENS = ["-Ia", "-I", "-Lb", "-lc", "-Dk", "-Dk=v", "-Dk=v=w", "-D", "-pthread", "-Wl,x", "-"]
@@ -384,7 +384,7 @@ class Space(object):
         if quick:
             self.fam.append(("F2-product<=2x<=2", len(self.c2) * len(self.l2) * len(SEP_NAMES), self.f2))
         else:
-            self.fam.append(("F2-product<=3x<=3", len(self.c3) * len(self.l3) * len(SEP_NAMES), self.f2))
+            self.fam.append(("F2-product<=3x<=3", len(self.c3) * len(self.l3), self.f2))
         # F3: every --libs sequence <= 3 with every separator against a fixed --cflags answer
         self.fam.append(("F3-libs<=3", len(self.l3) * len(SEP_NAMES), self.f3))
         # F4: failure shapes
@@ -406,9 +406,14 @@ class Space(object):
                  okspec(render(self.toks(self.l3[li]), lsep)))]
 
     def f2(self, i):
-        cs, ls = (self.c2, self.l2) if self.quick else (self.c3, self.l3)
-        rest, si = divmod(i, len(SEP_NAMES))
-        ci, li = divmod(rest, len(ls))
+        if self.quick:
+            cs, ls = self.c2, self.l2
+            rest, si = divmod(i, len(SEP_NAMES))
+            ci, li = divmod(rest, len(ls))
+        else:                       # thorough: the separator style cycles with the pair instead of multiplying it
+            cs, ls = self.c3, self.l3
+            ci, li = divmod(i, len(ls))
+            si = (ci + 2 * li) % len(SEP_NAMES)
         return [("libfoo", okspec(render(self.toks(cs[ci]), SEP_NAMES[si])),
                  okspec(render(self.toks(ls[li]), SEP_NAMES[si])))]
 
@@ -557,7 +562,11 @@ def build_stub():
     out = os.path.join(build.scratch_shared(), "c35_stub_pkgconfig")
     if not os.path.exists(out):
         with open(os.path.join(build.HARNESS, "c35_stub_pkgconfig.c")) as f:
-            build.cc(f.read(), out, shared=False)
+            src = f.read()
+        try:                          # static: exec of a dynamic binary costs twice as much on this machine
+            build.cc(src, out, flags=["-static", "-O1"], shared=False)
+        except InfraError:
+            build.cc(src, out, flags=["-O1"], shared=False)
     _W["stub"] = out
     return out
 
@@ -700,7 +709,7 @@ def run(ctx):
                         "packages": [{"name": p[0], "cflags": list(p[1]), "libs": list(p[2])} for p in c]})
     # seam validation through a real executable
     picks = []
-    want_real = 240 if ctx.quick else 1200
+    want_real = 150 if ctx.quick else 600
     for fi, (fname, n, gen) in enumerate(sp.fam):
         share = max(20, want_real * n // total) if fname != "F4-failures" else min(n, want_real // 3)
         step = max(1, n // share)
@@ -711,7 +720,7 @@ def run(ctx):
     nreal = nreal_err = 0
     chunks = list(pool.chunks(picks, 8))
     mism = []
-    for item, r in pool.pmap(work_real, chunks):
+    for item, r in pool.pmap(work_real, chunks, nproc=4):      # process creation does not scale here
         if isinstance(r, (pool.WorkerError, pool.Crash)):
             raise InfraError("real-stub worker failed: %r" % (r,))
         fi, i, same, o1, o2 = r
@@ -730,7 +739,7 @@ def run(ctx):
     evaluated = nontrivial = 0
     hist = collections.Counter()
     bad_all = []
-    for block, r in pool.pmap(work, [[b] for b in blocks]):
+    for block, r in pool.pmap(work, [[b] for b in blocks], nproc=8 if ctx.quick else None):
         if isinstance(r, (pool.WorkerError, pool.Crash)):
             raise InfraError("worker failed: %r" % (r,))
         fi, n, nt, h, bad = r
@@ -758,14 +767,16 @@ def run(ctx):
         "evaluations": evaluated + nmerge,
         "distinct_nontrivial": nontrivial,
         "rule": "11-token alphabet %r; F1 = every --cflags sequence of length p+1..4 x 5 separator styles (the --libs answer "
-                "cycles through every sequence <= 3; lengths <= p are in F2); F2 = full product of --cflags sequences <= %d and --libs sequences "
-                "<= %d x 5 separator styles; F3 = every --libs sequence <= 3 x 5 separators; F4 = every pair of "
+                "cycles through every sequence <= 3; lengths <= p are in F2); F2 = full product of --cflags sequences <= %d "
+                "and --libs sequences <= %d x %s; F3 = every --libs sequence <= 3 x 5 separators; F4 = every pair of "
                 "(good | failing | undecodable | spawn error | backslash | non-ASCII | CRLF | no newline) answers for one "
                 "package and each of them at every call position of 2 and 3 packages; F5 = all package lists of length "
                 "1..3 over a %d-package universe; plus merge_flags on all pairs and a grid of triples of small dicts.  "
                 "non-trivial = has a cross-prefix token, a repeated token, an empty value, a second '=', a failing run, "
                 "non-ASCII/backslash text or more than one package (cases are distinct by construction)" % (
-                    TOKENS, 2 if ctx.quick else 3, 2 if ctx.quick else 3, len(sp.universe)),
+                    TOKENS, 2 if ctx.quick else 3, 2 if ctx.quick else 3,
+                    "5 separator styles" if ctx.quick else "one separator style per pair, cycling through the 5",
+                    len(sp.universe)),
         "exhaustive": True,
         "bound": {"cflags_len": 4, "libs_len": 3, "product_len": 2 if ctx.quick else 3, "package_list_len": 3},
         "families": {f[0]: f[1] for f in sp.fam},
